@@ -172,4 +172,5 @@ def field_read_definition(ex: Any, st: Any, k: Any, n: Any, fcls: Any = None) ->
                    z3.If(kind == 0, code == 0,
                          z3.If(z3.Or(kind == 1, kind == 2), z3.And(code == 1, val == idx), z3.And(code == 2, val == idx))))
     lhs = ISFIELDREAD(k, n) if fcls is None else ISFIELDREAD_F(k, n, fcls)
-    return [lhs == match]
+    from spec.ghost import READFIELDCLS
+    return [lhs == match, z3.Implies(is_read, READFIELDCLS(n) == rf)]
